@@ -199,3 +199,15 @@ Proof.
   - intros HW Hf. apply observe_mask_R. left. split; [assumption|]. rewrite Ecol.
     destruct (Rlt_dec 0 (Wsum NBm)); [lra|assumption].
 Qed.
+
+(* the count is a function of the index row alone: the same for every channel, weight function and data column *)
+Lemma count_slots_indep {T} (OP : ops T) wf wf' n col col' ix : forall ds c,
+  fold_left (fun c s => (c + (if present s then 1 else 0))%Z) (slots_col (gather OP) wf n col ix ds) c =
+  fold_left (fun c s => (c + (if present s then 1 else 0))%Z) (slots_col (gather OP) wf' n col' ix ds) c.
+Proof.
+  unfold slots_col. induction ix as [|i ix IH]; intros [|d ds] c; cbn; try reflexivity. apply IH.
+Qed.
+
+Lemma count_channel_independent {T} (OP : ops T) wf wf' n col col' ix ds f f' :
+  c_cnt (weighted_col OP wf n col ix ds f) = c_cnt (weighted_col OP wf' n col' ix ds f').
+Proof. unfold weighted_col, col_of_slots, count_of; cbn [c_cnt]. apply count_slots_indep. Qed.
